@@ -103,6 +103,110 @@ Proof.
   destruct rest as [|nxt ?]; [inversion H; subst; exact I1|]. eapply IH; eauto.
 Qed.
 
+(* ---------- connectedness: every declared atom but the first is bonded to an earlier one ---------- *)
+Lemma add_bond_shape st i j bt st' : add_bond st i j bt = ROk' st' ->
+  i <> j /\ f_atoms (frag st') = f_atoms (frag st) /\ exists qt, f_bonds (frag st') = f_bonds (frag st) ++ [(i, j, qt)].
+Proof.
+  unfold add_bond. intros H.
+  destruct (Nat.eqb i j || has_bond (frag st) i j) eqn:E; [discriminate|].
+  apply orb_false_iff in E. destruct E as [E _]. apply Nat.eqb_neq in E.
+  destruct (bkind_of bt) as [k|]; [|discriminate].
+  destruct (match k with KSingle => _ | _ => _ end) as [qt bc]. inversion H; subst; clear H. simpl.
+  split; [exact E|]. split; [reflexivity|]. exists qt. reflexivity.
+Qed.
+
+Lemma connected_more_bonds f g : f_atoms g = f_atoms f -> (forall x, In x (f_bonds f) -> In x (f_bonds g)) ->
+  connected f -> connected g.
+Proof.
+  intros Ha Hb C k Hk. rewrite Ha in Hk. destruct (C k Hk) as (j & t & Hj & [H|H]); exists j, t; split; auto.
+Qed.
+
+Lemma read_bonded_conn st t st' : read_bonded elements xlower st t = ROk' st' -> WInv st ->
+  connected (frag st) -> connected (frag st').
+Proof.
+  unfold read_bonded. intros H I C. brk H. inversion H; subst; clear H.
+  match goal with E : add_atom ?s ?q ?c ?l = (?r, ?n) |- _ =>
+    pose proof (add_atom_inv s q c l I) as (A & B & D); rewrite E in A, B, D; simpl in A, B, D;
+    assert (Hb1 : f_bonds (frag r) = f_bonds (frag s)) by (unfold add_atom in E; inversion E; reflexivity);
+    assert (Ha1 : f_atoms (frag r) = f_atoms (frag s) ++ [q]) by (unfold add_atom in E; inversion E; reflexivity) end.
+  match goal with E : add_bond _ _ _ _ = ROk' _ |- _ => destruct (add_bond_shape _ _ _ _ _ E) as (Hne & Ha2 & qt & Hb2) end.
+  match goal with E : index_of _ _ = Some _ |- _ => apply index_of_lt in E; rename E into Hj end.
+  destruct A as [An _]. rewrite An, D in Hj.
+  intros k Hk. simpl in Hk. rewrite Ha2, Ha1, app_length in Hk. simpl in Hk. simpl. rewrite Hb2, Hb1.
+  destruct (Nat.eq_dec k (length (f_atoms (frag st)))) as [->|Hne'].
+  - subst n. eexists. exists qt. split; [|left; apply in_or_app; right; left; reflexivity]. lia.
+  - destruct (C k) as (j & t' & Hjk & [Hin|Hin]); [lia| |]; exists j, t'; (split; [exact Hjk|]);
+      [left|right]; apply in_or_app; left; exact Hin.
+Qed.
+
+Lemma read_ringbond_conn st t st' : read_ringbond st t = ROk' st' -> connected (frag st) -> connected (frag st').
+Proof.
+  unfold read_ringbond. intros H C. brk H.
+  destruct (add_bond_shape _ _ _ _ _ H) as (_ & Ha & qt & Hb).
+  eapply connected_more_bonds; [exact Ha| |exact C]. intros x Hx. rewrite Hb. apply in_or_app. left. exact Hx.
+Qed.
+
+Lemma read_stereo_conn st t st' : read_stereo st t = ROk' st' -> connected (frag st) -> connected (frag st').
+Proof.
+  unfold read_stereo. intros H C. brk H. all: inversion H; subst; clear H; exact C.
+Qed.
+
+Lemma read_atomchain_conn fuel : forall st t st', read_atomchain elements xlower fuel st t = ROk' st' -> WInv st ->
+  connected (frag st) -> connected (frag st').
+Proof.
+  induction fuel as [|f IH]; intros st t st' H I C; simpl in H; [discriminate|].
+  destruct (kids t) as [|x rest]; [discriminate|].
+  match type of H with rbind ?r _ = _ => destruct r as [st1|] eqn:E; [|discriminate] end. cbn [rbind] in H.
+  assert (I1 : WInv st1 /\ connected (frag st1)).
+  { destruct (is_node "BondedAtom" x); [split; [eapply read_bonded_inv|eapply read_bonded_conn]; eauto|].
+    destruct (is_node "RingBond" x); [split; [eapply read_ringbond_inv|eapply read_ringbond_conn]; eauto|].
+    destruct (is_node "StereoDoubleBond" x); [split; [eapply read_stereo_inv|eapply read_stereo_conn]; eauto|discriminate]. }
+  destruct I1 as [I1 C1]. destruct rest as [|nxt ?]; [inversion H; subst; exact C1|]. eapply IH; eauto.
+Qed.
+
+Lemma read_atom_first t st' : read_atom elements xlower {| names := []; frag := empty_frag |} t = ROk' st' ->
+  length (f_atoms (frag st')) = 1 /\ connected (frag st').
+Proof.
+  unfold read_atom. intros H. brk H. inversion H; subst; clear H.
+  match goal with E : add_atom _ _ _ _ = _ |- _ => unfold add_atom in E; inversion E; subst; clear E end.
+  simpl. split; [reflexivity|]. intros k Hk. simpl in Hk. lia.
+Qed.
+
+Lemma read_atomchain_len fuel : forall st t st', read_atomchain elements xlower fuel st t = ROk' st' ->
+  length (f_atoms (frag st)) <= length (f_atoms (frag st')).
+Proof.
+  induction fuel as [|f IH]; intros st t st' H; simpl in H; [discriminate|].
+  destruct (kids t) as [|x rest]; [discriminate|].
+  match type of H with rbind ?r _ = _ => destruct r as [st1|] eqn:E; [|discriminate] end. cbn [rbind] in H.
+  assert (L : length (f_atoms (frag st)) <= length (f_atoms (frag st1))).
+  { destruct (is_node "BondedAtom" x).
+    - unfold read_bonded in E. brk E. inversion E; subst; clear E.
+      match goal with E1 : add_atom _ _ _ _ = _, E2 : add_bond _ _ _ _ = ROk' _ |- _ =>
+        destruct (add_bond_shape _ _ _ _ _ E2) as (_ & Ha & _); unfold add_atom in E1; inversion E1; subst; clear E1 end.
+      simpl. rewrite Ha. simpl. rewrite app_length. lia.
+    - destruct (is_node "RingBond" x).
+      + unfold read_ringbond in E. brk E. destruct (add_bond_shape _ _ _ _ _ E) as (_ & Ha & _). rewrite Ha. lia.
+      + destruct (is_node "StereoDoubleBond" x); [|discriminate].
+        unfold read_stereo in E. brk E. all: inversion E; subst; simpl; lia. }
+  destruct rest as [|nxt ?]; [inversion H; subst; exact L|]. specialize (IH _ _ _ H). lia.
+Qed.
+
+(* every fragment the reader accepts is connected and has at least one atom *)
+Theorem read_fragment_connected t f : read_fragment elements xlower t = ROk' f -> connected f /\ f_atoms f <> [].
+Proof.
+  unfold read_fragment. intros H. brk H. inversion H; subst; clear H.
+  match goal with E : read_atom _ _ ?s0 _ = ROk' ?s |- _ =>
+    destruct (read_atom_first _ _ E) as [L0 C0];
+    assert (I0 : WInv s) by (eapply read_atom_inv; [exact E|]; split; [reflexivity|intros ? ? ? []]) end.
+  match goal with E : match ?l with [] => _ | _ => _ end = ROk' ?s |- _ =>
+    assert (G : connected (frag s) /\ 1 <= length (f_atoms (frag s)));
+      [destruct l; [inversion E; subst; split; [exact C0|lia]
+                   |split; [eapply read_atomchain_conn; eauto|apply read_atomchain_len in E; lia]]|] end.
+  destruct G as [C L]. split.
+  - intros k Hk. simpl in *. destruct (C k Hk) as (j & t' & Hj & Hin). exists j, t'. auto.
+  - simpl. intros Hnil. rewrite Hnil in L. simpl in L. lia.
+Qed.
+
 (* every fragment the reader accepts has well-formed bonds *)
 Theorem read_fragment_wf t f : read_fragment elements xlower t = ROk' f -> wf_bonds f.
 Proof.
